@@ -284,7 +284,7 @@ func (P) Generate(g *core.Gen) {
 	// core.NewRand(seed) streams of adjacent seeds are one-draw shifts of each other; fork once so
 	// that every seed gets an unrelated stream.
 	r := g.R.Fork()
-	for i := 0; i < g.N(2500, 40000); i++ {
+	for i := 0; i < g.N(2500, 120000); i++ {
 		W := int(r.Pick(2, 3, 3, 4, 4, 5, 6, 8, 10))
 		excluded := ""
 		if r.Chance(1, 40) {
@@ -446,7 +446,7 @@ func (P) Generate(g *core.Gen) {
 // on the two networks with a small window, timestamps straddling their start/end times.
 func genShipped(g *core.Gen) {
 	r := g.R.Fork()
-	for i := 0; i < g.N(12, 120); i++ {
+	for i := 0; i < g.N(12, 300); i++ {
 		name := []string{"reg", "sim", "main", "test3", "test4", "sig"}[i%6]
 		p := netParams()[name]
 		W := int(p.MinerConfirmationWindow)
